@@ -261,6 +261,8 @@ def table():
     add('Twist3.Revolute:a', lambda v: Twist3.Revolute(v, V3), {3}, **c3)
     add('Twist3.Revolute:q', lambda v: Twist3.Revolute(V3, v), {3}, **c3)
     add('Twist3.Prismatic', lambda v: Twist3.Prismatic(v), {3}, **c3)
+    add('Twist3.Ry:t', lambda v: Twist3.Ry(0.3, t=v), {3}, **c3)
+    add('Twist3.Rz:t', lambda v: Twist3.Rz(0.3, t=v), {3}, **c3)
     add('Twist2()', lambda v: Twist2(v), {3}, **c3)
     add('Twist2.Revolute', lambda v: Twist2.Revolute(v), {2}, **c3)
     add('Twist2.Prismatic', lambda v: Twist2.Prismatic(v), {2}, **c3)
@@ -375,6 +377,7 @@ def angle_in_entries():
         ('UnitQuaternion.AngVec', lambda a, u: UnitQuaternion.AngVec(a, [1, 2, 3], unit=u), 1),
         ('Twist3.Rx', lambda a, u: Twist3.Rx([a], u), 1), ('Twist3.Ry', lambda a, u: Twist3.Ry([a], u), 1), ('Twist3.Rz', lambda a, u: Twist3.Rz([a], u), 1),
         ('Twist3.Rx:scalar', lambda a, u: Twist3.Rx(a, u), 1), ('Twist3.Ry:scalar', lambda a, u: Twist3.Ry(a, u), 1), ('Twist3.Rz:scalar', lambda a, u: Twist3.Rz(a, u), 1),
+        ('Twist3.Ry:t', lambda a, u: Twist3.Ry(a, u, t=[1, 2, 3]), 1), ('Twist3.Rz:t', lambda a, u: Twist3.Rz(a, u, t=[1, 2, 3]), 1),
         ('Twist3.exp', lambda a, u: Twist3([1, 2, 3, 0.2, -0.3, 0.4]).exp(a, u), 1),
         ('Twist2.exp', lambda a, u: Twist2([1, 2, 0.5]).exp(a, u), 1),
     ]
@@ -610,6 +613,8 @@ def multi_ctor_entries():
         L.append((f'SE3.{ax}:t', (lambda m: lambda A, c, u: m(c(A), u, t=[1, 2, 3]))(m), (lambda m: lambda a: m(a, t=[1, 2, 3]))(m), 1))
         m = getattr(Twist3, ax)
         L.append((f'Twist3.{ax}', (lambda m: lambda A, c, u: m(c(A), u))(m), (lambda m: lambda a: m([a]))(m), 1))
+        if ax != 'Rx':
+            L.append((f'Twist3.{ax}:t', (lambda m: lambda A, c, u: m(c(A), u, t=[1, 2, 3]))(m), (lambda m: lambda a: m([a], t=[1, 2, 3]))(m), 1))
     L.append(('SO2', lambda A, c, u: SO2(c(A), unit=u), lambda a: SO2(a), 1))
     tw3, tw2 = [1, 2, 3, 0.2, -0.3, 0.4], [1, 2, 0.5]
     L.append(('Twist3.exp', lambda A, c, u: Twist3(tw3).exp(c(A), u), lambda a: Twist3(tw3).exp(a), 1))
